@@ -12,7 +12,7 @@ RULE = (
     "X1 over generated plans: all 70 order-preserving interleavings of two 4-unit run bodies (open_run, checkpointed bundle, "
     "checkpointed bundle, close_run) under run keys k1/k2 (and None/k2), each detector's readings carrying a per-key marker; plus, for "
     "every interleaving position, an extra open_run of a key that is open at that point (the plan logs and swallows the rejection); "
-    "pause->resume at every loop position of every interleaving, suspension on 10 of them (thorough: all, and two interruptions on 4). "
+    "keys assigned by NESTED set_run_key_wrapper calls for every ordered pair of distinct keys from {'k1','k2',0,'',(),False,1,0.0} (inner run inside the open outer run); pause->resume at every loop position of every interleaving, suspension on 10 of them (thorough: all, and two interruptions on 4). "
     "Oracle: per run DOCSTREAM and SEQNUM on its own documents, every event of run k carries only detector k's keys and values, "
     "no document references another run, the data per (run, seq_num) equal the uninterrupted execution; a duplicate open_run is "
     "answered with IllegalMessageSequence at that very yield and the runs' documents are those of the plan without the duplicate; "
@@ -21,20 +21,26 @@ RULE = (
 ASSUMPTIONS = _x1.X1_ASSUMPTIONS
 
 MENU = [("pause",), ("suspend", "none")]
+from bsv.scenarios.extra import KEYSW_KEYS  # noqa: E402
+
+_KW = [(a, b) for a in range(len(KEYSW_KEYS)) for b in range(len(KEYSW_KEYS)) if KEYSW_KEYS[a] != KEYSW_KEYS[b]]
 _ten = [0, 7, 19, 23, 34, 35, 46, 52, 61, 69]
 SPECS = {
     "quick": [spec("keys", [], bound=0, il=i) for i in range(70)]
     + [spec("keys", [("pause",)], bound=1, il=i) for i in range(70)]
     + [spec("keys", [("suspend", "none")], bound=1, il=i) for i in _ten]
     + [spec("keys", [], bound=0, il=i, dup=j, ly=1, oe="s") for i in _ten for j in range(8)]
-    + [spec("keys", MENU, bound=1, il=34, nokey=1)],
+    + [spec("keys", MENU, bound=1, il=34, nokey=1)]
+    + [spec("keysw", [], bound=0, ko=a, ki=b) for a, b in _KW]
+    + [spec("keysw", [("pause",)], bound=1, ko=a, ki=b) for a, b in ((0, 1), (0, 2), (2, 0), (3, 4))],
     "thorough": [spec("keys", MENU, bound=1, il=i) for i in range(70)]
     + [spec("keys", MENU, bound=1, il=i, a=1) for i in _ten]
     + [spec("keys", MENU, bound=1, il=i, nokey=1) for i in _ten]
     + [spec("keys", [], bound=0, il=i, dup=j, ly=1, oe="s") for i in range(70) for j in range(8)]
     + [spec("keys", MENU, bound=1, il=i, dup=j, ly=1, oe="s") for i in (19, 35) for j in (2, 4, 6)]
     + [spec("keys", MENU, bound=2, il=i) for i in (0, 34, 35, 69)]
-    + [spec("nested", MENU, bound=2)],
+    + [spec("nested", MENU, bound=2)]
+    + [spec("keysw", MENU, bound=1, ko=a, ki=b) for a, b in _KW],
 }
 
 _REF_NODUP = {}
@@ -68,7 +74,7 @@ def oracle(scn, obs, ref, schedule):
     runs = runs_of(docs)
     for ri, run in enumerate(runs):
         key = run["start"].get("key")
-        marker = {"None": ("d1", 100.0), "k1": ("d1", 100.0), "k2": ("d2", 200.0)}.get(str(key))
+        marker = {"None": ("d1", 100.0), "k1": ("d1", 100.0), "k2": ("d2", 200.0), "outer": ("d1", 100.0), "inner": ("d2", 200.0)}.get(str(key))
         if marker is None:
             continue
         for e in run["events"]:
@@ -76,6 +82,14 @@ def oracle(scn, obs, ref, schedule):
                 out.append(("event-in-wrong-run", f"run key={key}: event with data keys {sorted(e['data'])}"))
             elif e["data"][marker[0]] != marker[1]:
                 out.append(("event-value-from-other-run", f"run key={key}: {e['data']}"))
+    # nested set_run_key_wrapper: both runs exist, complete, with their own events, whatever the (possibly falsy) keys are
+    if scn.id == "keysw" and not schedule.get("injections"):
+        c0 = obs.calls[0]
+        if c0["exc"] is not None:
+            out.append((f"nested-keys-call-raised:{type(c0['exc']).__name__}", f"RE() raised {type(c0['exc']).__name__}: {str(c0['exc'])[:120]}"))
+        shape = sorted((str(r["start"].get("key")), len(r["events"]), (r["stop"] or {}).get("exit_status")) for r in runs)
+        if c0["exc"] is None and shape != [("inner", 1, "success"), ("outer", 2, "success")]:
+            out.append(("nested-keys-runs", f"runs (key, events, exit_status) = {shape}"))
     # duplicate open: rejected at that yield, other documents undisturbed
     if scn.params.get("dup") is not None and not schedule.get("injections"):
         ylog = obs.extra.get("ylog", [])
